@@ -181,6 +181,82 @@ pub fn gen_program_x(rng: &mut Rng, nvars: usize, nops: usize, allow_newvar: boo
             ops.push(Op::Or(base + 13, base + 16)); // base+17
             continue;
         }
+        // identity patterns (one step in ten): other constructions of a function already in the
+        // pool — its Shannon expansion on a variable, its resolution form (f|v)&(f|!v), and the
+        // conjunction with another entry distributed over the resolution form — so that one
+        // function is reached through conditioned, negated and re-assembled diagrams
+        if ops.len() >= 3 && rng.chance(1, 10) {
+            let len = ops.len();
+            let f = pick_idx(rng, len);
+            let p = pick_idx(rng, len);
+            let v = rng.below(cur_vars as u64) as usize;
+            let base = ops.len();
+            ops.push(Op::Var(v, true)); // base
+            ops.push(Op::Var(v, false)); // base+1
+            ops.push(Op::Cond(f, v, true)); // base+2
+            ops.push(Op::Cond(f, v, false)); // base+3
+            ops.push(Op::And(base, base + 2)); // base+4
+            ops.push(Op::And(base + 1, base + 3)); // base+5
+            ops.push(Op::Or(base + 4, base + 5)); // base+6 : Shannon expansion == f
+            ops.push(Op::Or(f, base)); // base+7
+            ops.push(Op::Or(f, base + 1)); // base+8
+            ops.push(Op::And(base + 7, base + 8)); // base+9 : resolution form == f
+            ops.push(Op::And(p, base + 2)); // base+10 : p & f|v
+            ops.push(Op::And(p, base + 7)); // base+11
+            ops.push(Op::And(p, base + 8)); // base+12
+            ops.push(Op::And(base + 11, base + 12)); // base+13 == p & f
+            ops.push(Op::And(p, f)); // base+14 == p & f
+            continue;
+        }
+        // deep-conditioning pattern (one step in ten, four or more variables): a chain over the
+        // first k variables of the order combined with a small function g over the two deepest
+        // ones, so that g's node is shared by several parents (through plain and complemented
+        // edges); then condition / quantify / compose on the deep variables, where g collapses
+        if nvars >= 4 && rng.chance(1, 10) {
+            let z = order[nvars - 1];
+            let y = order[nvars - 2];
+            let k = 2 + rng.below((nvars - 3) as u64) as usize;
+            ops.push(Op::Var(order[0], rng.coin()));
+            let mut acc = ops.len() - 1;
+            for p in 1..k {
+                ops.push(Op::Var(order[p], rng.coin()));
+                let l = ops.len() - 1;
+                ops.push(if rng.coin() { Op::And(acc, l) } else { Op::Or(acc, l) });
+                acc = ops.len() - 1;
+            }
+            ops.push(Op::Var(y, rng.coin()));
+            let ly = ops.len() - 1;
+            ops.push(Op::Var(z, rng.coin()));
+            let lz = ops.len() - 1;
+            ops.push(match rng.below(3) {
+                0 => Op::And(ly, lz),
+                1 => Op::Or(ly, lz),
+                _ => Op::Xor(ly, lz),
+            });
+            let g = ops.len() - 1;
+            ops.push(match rng.below(4) {
+                0 => Op::And(acc, g),
+                1 => Op::Or(acc, g),
+                2 => Op::Xor(acc, g),
+                _ => Op::Ite(acc, g, ly),
+            });
+            let f = ops.len() - 1;
+            let deep = if rng.chance(3, 4) { z } else { y };
+            ops.push(Op::Cond(f, deep, rng.coin()));
+            ops.push(Op::Cond(f, deep, rng.coin()));
+            ops.push(Op::Exist(f, deep));
+            if !basic {
+                let mut m: Vec<Option<bool>> = vec![None; cur_vars];
+                m[deep] = Some(rng.coin());
+                if rng.coin() {
+                    m[order[0]] = Some(rng.coin());
+                }
+                ops.push(Op::CondM(f, m));
+            }
+            let other = pick_idx(rng, ops.len());
+            ops.push(Op::Compose(f, deep, other));
+            continue;
+        }
         let len = ops.len();
         let i = pick_idx(rng, len);
         let j = pick_idx(rng, len);
